@@ -25,6 +25,7 @@ import (
 	"path/filepath"
 	"runtime"
 	"runtime/debug"
+	"runtime/pprof"
 	"strconv"
 	"strings"
 	"sync"
@@ -43,29 +44,72 @@ func init() {
 // programs
 
 type c08Expr struct {
-	Kind string     `json:"k"` // const | var | prim | if | let | call
-	N    int64      `json:"n,omitempty"`
-	Name string     `json:"s,omitempty"` // var name, prim op, let variable, callee
-	Args []*c08Expr `json:"a,omitempty"` // prim: 2, if: 3, let: init, body; call: arguments
+	Kind  string     `json:"k"` // const | kw | var | prim | if | let | call
+	N     int64      `json:"n,omitempty"`
+	Name  string     `json:"s,omitempty"` // var name, keyword, prim op, let variable, callee
+	Args  []*c08Expr `json:"a,omitempty"` // prim: 2, if: 3, let: init, body; call: arguments
+	Style int        `json:"y,omitempty"` // how the implementation text spells a let / an if (the meaning is the same)
+}
+
+// let styles: (let ((x v)) b) | (let* ((x v)) b) | (funcall (lambda (x) b) v) | ((lambda (x) b) v)
+// if styles:  (if c t e) | (cond (c t) (t e))
+const (
+	c08LetPlain = iota
+	c08LetStar
+	c08LetFuncall
+	c08LetLambda
+	c08LetStyles
+)
+
+// a parameter with a constant default (&optional / &key)
+type c08Default struct {
+	Name string `json:"name"`
+	Val  int64  `json:"val"`
+}
+
+// an &aux variable with its init form
+type c08Aux struct {
+	Name string   `json:"name"`
+	Init *c08Expr `json:"init"`
 }
 
 type c08Def struct {
-	Name   string   `json:"name"`
-	Params []string `json:"params"`
-	Body   *c08Expr `json:"body"`
+	Name   string       `json:"name"`
+	Params []string     `json:"params"` // required parameters
+	Opt    []c08Default `json:"opt,omitempty"`
+	Key    []c08Default `json:"key,omitempty"`
+	Aux    []c08Aux     `json:"aux,omitempty"`
+	Body   *c08Expr     `json:"body"`
+}
+
+// every variable a body may use
+func (d *c08Def) vars() []string {
+	vs := append([]string{}, d.Params...)
+	for _, o := range d.Opt {
+		vs = append(vs, o.Name)
+	}
+	for _, k := range d.Key {
+		vs = append(vs, k.Name)
+	}
+	for _, a := range d.Aux {
+		vs = append(vs, a.Name)
+	}
+	return vs
 }
 
 // a step of a history
 type c08Step struct {
-	Kind string   `json:"kind"` // def | eval | again
+	Kind string   `json:"kind"` // def | undef | eval | again
 	Def  *c08Def  `json:"def,omitempty"`
 	Expr *c08Expr `json:"expr,omitempty"`
-	J    int      `json:"j,omitempty"` // again: index among the eval steps so far
+	J    int      `json:"j,omitempty"`    // again: index among the eval steps so far
+	Name string   `json:"name,omitempty"` // undef: the function
 	Tag  string   `json:"tag,omitempty"`
 }
 
 func c08Const(n int64) *c08Expr { return &c08Expr{Kind: "const", N: n} }
 func c08Var(s string) *c08Expr  { return &c08Expr{Kind: "var", Name: s} }
+func c08Kw(s string) *c08Expr   { return &c08Expr{Kind: "kw", Name: s} }
 func c08Prim(op string, a, b *c08Expr) *c08Expr {
 	return &c08Expr{Kind: "prim", Name: op, Args: []*c08Expr{a, b}}
 }
@@ -75,52 +119,153 @@ func c08Let(x string, v, b *c08Expr) *c08Expr {
 }
 func c08Call(f string, args ...*c08Expr) *c08Expr { return &c08Expr{Kind: "call", Name: f, Args: args} }
 
-// render as Lisp text; function names go through mangle
-func (e *c08Expr) render(b *strings.Builder, mangle func(string) string) {
+// render as Lisp text; function names go through mangle. The model text (styled = false) always
+// uses plain let / if; the implementation text (styled = true) uses the recorded spelling.
+func (e *c08Expr) render(b *strings.Builder, mangle func(string) string, styled bool) {
+	sub := func(x *c08Expr) { x.render(b, mangle, styled) }
 	switch e.Kind {
 	case "const":
 		b.WriteString(strconv.FormatInt(e.N, 10))
+	case "kw":
+		b.WriteString(":" + e.Name)
 	case "var":
-		b.WriteString(e.Name)
+		b.WriteString(c08VarName(e.Name, mangle, styled))
 	case "prim":
 		b.WriteString("(" + e.Name + " ")
-		e.Args[0].render(b, mangle)
+		sub(e.Args[0])
 		b.WriteByte(' ')
-		e.Args[1].render(b, mangle)
+		sub(e.Args[1])
 		b.WriteByte(')')
 	case "if":
+		if styled && e.Style == 1 {
+			b.WriteString("(cond (")
+			sub(e.Args[0])
+			b.WriteByte(' ')
+			sub(e.Args[1])
+			b.WriteString(") (t ")
+			sub(e.Args[2])
+			b.WriteString("))")
+			return
+		}
 		b.WriteString("(if ")
-		e.Args[0].render(b, mangle)
+		sub(e.Args[0])
 		b.WriteByte(' ')
-		e.Args[1].render(b, mangle)
+		sub(e.Args[1])
 		b.WriteByte(' ')
-		e.Args[2].render(b, mangle)
+		sub(e.Args[2])
 		b.WriteByte(')')
 	case "let":
-		b.WriteString("(let ((" + e.Name + " ")
-		e.Args[0].render(b, mangle)
-		b.WriteString(")) ")
-		e.Args[1].render(b, mangle)
-		b.WriteByte(')')
+		style := e.Style
+		if !styled {
+			style = c08LetPlain
+		}
+		switch style {
+		case c08LetStar:
+			// consecutive let* bindings are merged into one form
+			b.WriteString("(let* (")
+			cur := e
+			for {
+				b.WriteString("(" + cur.Name + " ")
+				sub(cur.Args[0])
+				b.WriteByte(')')
+				if nx := cur.Args[1]; nx.Kind == "let" && nx.Style == c08LetStar {
+					b.WriteByte(' ')
+					cur = nx
+					continue
+				}
+				break
+			}
+			b.WriteString(") ")
+			sub(cur.Args[1])
+			b.WriteByte(')')
+		case c08LetFuncall, c08LetLambda:
+			if style == c08LetFuncall {
+				b.WriteString("(funcall (lambda (" + e.Name + ") ")
+			} else {
+				b.WriteString("((lambda (" + e.Name + ") ")
+			}
+			sub(e.Args[1])
+			b.WriteString(") ")
+			sub(e.Args[0])
+			b.WriteByte(')')
+		default:
+			b.WriteString("(let ((" + e.Name + " ")
+			sub(e.Args[0])
+			b.WriteString(")) ")
+			sub(e.Args[1])
+			b.WriteByte(')')
+		}
 	case "call":
 		b.WriteString("(" + mangle(e.Name))
 		for _, a := range e.Args {
 			b.WriteByte(' ')
-			a.render(b, mangle)
+			sub(a)
 		}
 		b.WriteByte(')')
 	}
 }
 
-func (s c08Step) text(mangle func(string) string) string {
+// variables named uq… are unique per variant in the implementation text (slip keeps per-name
+// global variable entries: see the cell lambda-form-bare-variable)
+func c08VarName(name string, mangle func(string) string, styled bool) string {
+	if styled && strings.HasPrefix(name, "uq") {
+		return mangle(name)
+	}
+	return name
+}
+
+func (d *c08Def) lambdaList(b *strings.Builder, mangle func(string) string, styled bool) {
+	ps := make([]string, len(d.Params))
+	for i, p := range d.Params {
+		ps[i] = c08VarName(p, mangle, styled)
+	}
+	b.WriteString(strings.Join(ps, " "))
+	sep := func() {
+		if b.Len() > 0 && !strings.HasSuffix(b.String(), "(") {
+			b.WriteByte(' ')
+		}
+	}
+	defaults := func(word string, ds []c08Default) {
+		if len(ds) == 0 {
+			return
+		}
+		sep()
+		b.WriteString(word)
+		for _, o := range ds {
+			fmt.Fprintf(b, " (%s %d)", o.Name, o.Val)
+		}
+	}
+	defaults("&optional", d.Opt)
+	defaults("&key", d.Key)
+	if len(d.Aux) > 0 {
+		sep()
+		b.WriteString("&aux")
+		for _, a := range d.Aux {
+			b.WriteString(" (" + a.Name + " ")
+			a.Init.render(b, mangle, styled)
+			b.WriteByte(')')
+		}
+	}
+}
+
+// text of a step: styled = the implementation's spelling (fmakunbound, let styles), else the model's
+func (s c08Step) text(mangle func(string) string, styled bool) string {
 	var b strings.Builder
 	switch s.Kind {
 	case "def":
-		b.WriteString("(defun " + mangle(s.Def.Name) + " (" + strings.Join(s.Def.Params, " ") + ") ")
-		s.Def.Body.render(&b, mangle)
+		var ll strings.Builder
+		s.Def.lambdaList(&ll, mangle, styled)
+		b.WriteString("(defun " + mangle(s.Def.Name) + " (" + ll.String() + ") ")
+		s.Def.Body.render(&b, mangle, styled)
 		b.WriteByte(')')
+	case "undef":
+		if styled {
+			b.WriteString("(fmakunbound '" + mangle(s.Name) + ")")
+		} else {
+			b.WriteString("(undef " + mangle(s.Name) + ")")
+		}
 	case "eval":
-		s.Expr.render(&b, mangle)
+		s.Expr.render(&b, mangle, styled)
 	case "again":
 		fmt.Fprintf(&b, "(again %d)", s.J)
 	}
@@ -132,7 +277,16 @@ func c08Ident(s string) string { return s }
 func c08HistoryText(steps []c08Step) string {
 	parts := make([]string, len(steps))
 	for i, s := range steps {
-		parts[i] = s.text(c08Ident)
+		parts[i] = s.text(c08Ident, false)
+	}
+	return strings.Join(parts, " ")
+}
+
+// the history as the implementation gets it (canonical names)
+func c08ImplText(steps []c08Step) string {
+	parts := make([]string, len(steps))
+	for i, s := range steps {
+		parts[i] = s.text(c08Ident, true)
 	}
 	return strings.Join(parts, " ")
 }
@@ -180,6 +334,15 @@ func (e *c08Expr) sites(compilePos bool, out *[][2]string) {
 	}
 }
 
+// call sites of a definition: the body is compiled with the defun, the &aux init forms are
+// converted on every call (lazy)
+func (d *c08Def) sites(out *[][2]string) {
+	d.Body.sites(true, out)
+	for _, a := range d.Aux {
+		a.Init.sites(false, out)
+	}
+}
+
 // ---------------------------------------------------------------------------------------------
 // admissibility filter: a plain evaluator used ONLY to keep generated histories inside the domain
 // in which the comparison is meaningful (terminating, few steps, no fixnum overflow — that is
@@ -191,12 +354,13 @@ type c08Filter struct {
 	ok    bool
 }
 
-const c08MaxSteps = 1500
+const c08MaxSteps = 500
 const c08MaxMag = int64(1) << 40
 
 type c08V struct {
-	kind byte // 'i' int, 'n' nil, 't' t
+	kind byte // 'i' int, 'n' nil, 't' t, 'k' keyword
 	n    int64
+	s    string
 }
 
 func (f *c08Filter) eval(e *c08Expr, env map[string]c08V, depth int) (c08V, bool) {
@@ -207,7 +371,9 @@ func (f *c08Filter) eval(e *c08Expr, env map[string]c08V, depth int) (c08V, bool
 	}
 	switch e.Kind {
 	case "const":
-		return c08V{'i', e.N}, true
+		return c08V{kind: 'i', n: e.N}, true
+	case "kw":
+		return c08V{kind: 'k', s: e.Name}, true
 	case "var":
 		v, has := env[e.Name]
 		return v, has
@@ -247,7 +413,7 @@ func (f *c08Filter) eval(e *c08Expr, env map[string]c08V, depth int) (c08V, bool
 			f.ok = false
 			return c08V{}, false
 		}
-		return c08V{'i', r}, true
+		return c08V{kind: 'i', n: r}, true
 	case "if":
 		c, ok := f.eval(e.Args[0], env, depth+1)
 		if !ok {
@@ -258,6 +424,7 @@ func (f *c08Filter) eval(e *c08Expr, env map[string]c08V, depth int) (c08V, bool
 		}
 		return f.eval(e.Args[1], env, depth+1)
 	case "let":
+		f.steps += 3 // the funcall / lambda spellings evaluate a few more forms
 		v, ok := f.eval(e.Args[0], env, depth+1)
 		if !ok {
 			return v, false
@@ -273,22 +440,84 @@ func (f *c08Filter) eval(e *c08Expr, env map[string]c08V, depth int) (c08V, bool
 		if d == nil {
 			return c08V{}, false // undefined function: an error outcome, admissible
 		}
-		if len(d.Params) != len(e.Args) {
-			f.ok = false
-			return c08V{}, false
-		}
-		env2 := make(map[string]c08V, len(d.Params))
-		for i, a := range e.Args {
+		var vals []c08V
+		for _, a := range e.Args {
 			v, ok := f.eval(a, env, depth+1)
 			if !ok {
 				return v, false
 			}
-			env2[d.Params[i]] = v
+			vals = append(vals, v)
+		}
+		env2, okb := c08Bind(d, vals)
+		if !okb {
+			f.ok = false // wrong argument count / malformed keywords: not generated on purpose
+			return c08V{}, false
+		}
+		for _, a := range d.Aux {
+			v, ok := f.eval(a.Init, env2, depth+1)
+			if !ok {
+				return v, false
+			}
+			env2[a.Name] = v
 		}
 		return f.eval(d.Body, env2, depth+1)
 	}
 	f.ok = false
 	return c08V{}, false
+}
+
+// c08Bind binds argument values to the lambda list the way the generator intends them: required,
+// then &optional positionally, then :key value pairs (each key at most once, only known keys,
+// only after all optionals were supplied).
+func c08Bind(d *c08Def, vals []c08V) (map[string]c08V, bool) {
+	env := map[string]c08V{}
+	if len(vals) < len(d.Params) {
+		return nil, false
+	}
+	for i, p := range d.Params {
+		if vals[i].kind == 'k' {
+			return nil, false
+		}
+		env[p] = vals[i]
+	}
+	rest := vals[len(d.Params):]
+	for _, o := range d.Opt {
+		if len(rest) > 0 {
+			if rest[0].kind == 'k' {
+				return nil, false
+			}
+			env[o.Name] = rest[0]
+			rest = rest[1:]
+		} else {
+			env[o.Name] = c08V{kind: 'i', n: o.Val}
+		}
+	}
+	if len(rest)%2 != 0 {
+		return nil, false
+	}
+	seen := map[string]bool{}
+	for i := 0; i < len(rest); i += 2 {
+		if rest[i].kind != 'k' || rest[i+1].kind == 'k' || seen[rest[i].s] {
+			return nil, false
+		}
+		known := false
+		for _, k := range d.Key {
+			if k.Name == rest[i].s {
+				known = true
+			}
+		}
+		if !known {
+			return nil, false
+		}
+		seen[rest[i].s] = true
+		env[rest[i].s] = rest[i+1]
+	}
+	for _, k := range d.Key {
+		if !seen[k.Name] {
+			env[k.Name] = c08V{kind: 'i', n: k.Val}
+		}
+	}
+	return env, true
 }
 
 // c08Admissible runs the history through the filter.
@@ -301,6 +530,8 @@ func c08Admissible(steps []c08Step) bool {
 		switch s.Kind {
 		case "def":
 			f.defs[s.Def.Name] = s.Def
+		case "undef":
+			delete(f.defs, s.Name)
 		case "eval":
 			exprs = append(exprs, s.Expr)
 			f.eval(s.Expr, map[string]c08V{}, 0)
@@ -355,7 +586,7 @@ func (g *c08Gen) expr(i int, depth int, vars []string, guarded bool, wantCall bo
 	switch {
 	case choice < 14:
 		return leaf()
-	case choice < 38:
+	case choice < 36:
 		op := []string{"+", "+", "-", "-", "*"}[r.Intn(5)]
 		a := g.expr(i, depth-1, vars, guarded, false)
 		b := g.expr(i, depth-1, vars, guarded, false)
@@ -363,15 +594,25 @@ func (g *c08Gen) expr(i int, depth int, vars []string, guarded bool, wantCall bo
 			b = c08Const(int64(r.Intn(3)) + 2)
 		}
 		return c08Prim(op, a, b)
-	case choice < 50:
+	case choice < 48:
 		op := []string{"<", "="}[r.Intn(2)]
 		c := c08Prim(op, g.expr(i, depth-1, vars, guarded, false), g.expr(i, depth-1, vars, guarded, false))
-		return c08If(c, g.expr(i, depth-1, vars, guarded, false), g.expr(i, depth-1, vars, guarded, false))
-	case choice < 60:
+		e := c08If(c, g.expr(i, depth-1, vars, guarded, false), g.expr(i, depth-1, vars, guarded, false))
+		if r.Chance(30) {
+			e.Style = 1
+		}
+		return e
+	case choice < 62:
 		x := c08LetVars[r.Intn(len(c08LetVars))]
 		v := g.expr(i, depth-1, vars, guarded, false)
 		nv := append(append([]string{}, vars...), x)
-		return c08Let(x, v, g.expr(i, depth-1, nv, guarded, false))
+		e := c08Let(x, v, g.expr(i, depth-1, nv, guarded, false))
+		e.Style = []int{c08LetPlain, c08LetPlain, c08LetStar, c08LetStar, c08LetFuncall, c08LetLambda}[r.Intn(6)]
+		if e.Style == c08LetLambda && e.Args[1].Kind == "var" && e.Args[1].Name != x {
+			// listed finding (cell lambda-form-bare-variable): composite cases avoid the construct
+			e.Style = c08LetFuncall
+		}
+		return e
 	default:
 		return g.call(i, depth, vars, guarded)
 	}
@@ -388,7 +629,8 @@ func c08Has(vars []string, v string) bool {
 
 // a call of a user function that keeps the program terminating: rank > i with counter n or
 // (- n 1); rank <= i only when guarded, with counter (- n 1). At top level (i = -1) the counter
-// is a small constant.
+// is a small constant. Optional arguments are supplied from the left with some probability,
+// keyword arguments (in any order) only when all optional ones are supplied.
 func (g *c08Gen) call(i int, depth int, vars []string, guarded bool) *c08Expr {
 	r := g.rng
 	var cands []int
@@ -417,32 +659,94 @@ func (g *c08Gen) call(i int, depth int, vars []string, guarded bool) *c08Expr {
 			j = back[r.Intn(len(back))]
 		}
 	}
-	callee := g.funcs[j]
-	args := make([]*c08Expr, len(callee.Params))
+	var counter *c08Expr
 	switch {
-	case i < 0:
-		args[0] = c08Const(int64(r.Intn(4)))
+	case i < 0 || !c08Has(vars, "n"):
+		counter = c08Const(int64(r.Intn(4)))
 	case j <= i:
-		args[0] = c08Prim("-", c08Var("n"), c08Const(1))
+		counter = c08Prim("-", c08Var("n"), c08Const(1))
 	default:
 		if r.Chance(50) {
-			args[0] = c08Var("n")
+			counter = c08Var("n")
 		} else {
-			args[0] = c08Prim("-", c08Var("n"), c08Const(1))
+			counter = c08Prim("-", c08Var("n"), c08Const(1))
 		}
 	}
-	for k := 1; k < len(args); k++ {
-		args[k] = g.expr(i, depth-2, vars, guarded, false)
+	return g.callOf(g.funcs[j], counter, func() *c08Expr { return g.expr(i, depth-2, vars, guarded, false) })
+}
+
+// callOf builds the argument list for callee from its lambda list.
+func (g *c08Gen) callOf(callee *c08Def, counter *c08Expr, arg func() *c08Expr) *c08Expr {
+	r := g.rng
+	args := []*c08Expr{counter}
+	for k := 1; k < len(callee.Params); k++ {
+		args = append(args, arg())
+	}
+	supplied := 0
+	for supplied < len(callee.Opt) && r.Chance(55) {
+		args = append(args, arg())
+		supplied++
+	}
+	if supplied == len(callee.Opt) && len(callee.Key) > 0 {
+		order := r.Intn(2)
+		for q := range callee.Key {
+			k := callee.Key[(q+order)%len(callee.Key)]
+			if r.Chance(45) {
+				args = append(args, c08Kw(k.Name), arg())
+			}
+		}
 	}
 	return c08Call(callee.Name, args...)
+}
+
+// lambda list of a generated function: the counter n, up to two more required parameters and
+// sometimes &optional / &key parameters with constant defaults
+func (g *c08Gen) signature(name string) *c08Def {
+	r := g.rng
+	d := &c08Def{Name: name, Params: []string{"n"}}
+	d.Params = append(d.Params, []string{"a", "b"}[:r.Intn(3)]...)
+	if r.Chance(30) {
+		for _, o := range []string{"o", "p"}[:1+r.Intn(2)] {
+			d.Opt = append(d.Opt, c08Default{Name: o, Val: int64(r.Intn(9)) - 2})
+		}
+	}
+	if r.Chance(25) {
+		for _, k := range []string{"k", "m"}[:1+r.Intn(2)] {
+			d.Key = append(d.Key, c08Default{Name: k, Val: int64(r.Intn(9)) - 2})
+		}
+	}
+	return d
+}
+
+// &aux variables (init forms evaluated on every call, may call functions of higher rank) and body
+func (g *c08Gen) fill(i int, d *c08Def) {
+	r := g.rng
+	d.Aux = nil
+	vars := d.vars()
+	if r.Chance(35) {
+		for _, x := range []string{"u", "w"}[:1+r.Intn(2)] {
+			init := g.expr(i, 1+r.Intn(2), vars, false, r.Chance(30))
+			if init.Kind == "const" || init.Kind == "var" {
+				// slip evaluates an &aux init only when it is a list form
+				init = c08Prim("+", init, c08Const(int64(r.Intn(5))))
+			}
+			d.Aux = append(d.Aux, c08Aux{Name: x, Init: init})
+			vars = append(vars, x)
+		}
+	}
+	d.Body = g.body(i, vars)
 }
 
 // body of function i
 func (g *c08Gen) body(i int, params []string) *c08Expr {
 	r := g.rng
 	depth := 2 + r.Intn(3)
+	hasN := c08Has(params, "n")
 	switch r.Intn(10) {
 	case 0, 1, 2:
+		if !hasN {
+			return g.expr(i, depth, params, false, false)
+		}
 		// guard at the top: recursion allowed in the else branch
 		return c08If(c08Prim("<", c08Var("n"), c08Const(1)), g.expr(i, depth-1, params, false, false), g.expr(i, depth, params, true, true))
 	case 3, 4:
@@ -470,15 +774,10 @@ func (g *c08Gen) program() *c08Program {
 	}
 	g.funcs = nil
 	for i := 0; i < k; i++ {
-		params := []string{"n"}
-		extra := r.Intn(3)
-		for _, p := range []string{"a", "b"}[:extra] {
-			params = append(params, p)
-		}
-		g.funcs = append(g.funcs, &c08Def{Name: fmt.Sprintf("f%d", i), Params: params})
+		g.funcs = append(g.funcs, g.signature(fmt.Sprintf("f%d", i)))
 	}
 	for i, d := range g.funcs {
-		d.Body = g.body(i, d.Params)
+		g.fill(i, d)
 	}
 	p := &c08Program{Defs: g.funcs}
 	// body expressions
@@ -507,26 +806,46 @@ func (g *c08Gen) program() *c08Program {
 	// events
 	nev := []int{0, 0, 1, 1, 2, 3}[r.Intn(6)]
 	redefs := map[string]int{}
+	redefine := func(i int, tag string) {
+		// a new definition of an existing function: same lambda list up to &aux, new &aux and body
+		old := g.funcs[i]
+		nd := &c08Def{Name: old.Name, Params: old.Params, Opt: old.Opt, Key: old.Key}
+		g.fill(i, nd)
+		p.Tail = append(p.Tail, c08Step{Kind: "def", Def: nd, Tag: tag})
+	}
+	newCaller := func(q int, suffix string) {
+		// a caller defined now (compiled against the current cells), and evaluated
+		nm := fmt.Sprintf("g%d%s", q, suffix)
+		nd := &c08Def{Name: nm, Params: []string{"n", "a"}}
+		g.fill(-1, nd) // rank -1: may call every function unguarded, the counter is a constant
+		p.Tail = append(p.Tail, c08Step{Kind: "def", Def: nd, Tag: "newcaller"})
+		evalStep(c08Call(nm, c08Const(int64(r.Intn(3))), c08Const(int64(r.Intn(9)))))
+	}
 	for q := 0; q < nev; q++ {
-		switch r.Intn(3) {
-		case 0, 1: // redefinition of an existing function, same parameters
+		switch r.Intn(4) {
+		case 0, 1:
 			i := r.Intn(len(g.funcs))
-			old := g.funcs[i]
-			nd := &c08Def{Name: old.Name, Params: old.Params}
-			keep := g.funcs
-			nd.Body = g.body(i, nd.Params)
-			g.funcs = keep
-			p.Tail = append(p.Tail, c08Step{Kind: "def", Def: nd, Tag: "redef"})
-			redefs[old.Name]++
-			p.Events = append(p.Events, fmt.Sprintf("redef%d", redefs[old.Name]))
-		case 2: // a new caller defined now (compiled against the current cells), and evaluated
-			nm := fmt.Sprintf("g%d", q)
-			nd := &c08Def{Name: nm, Params: []string{"n", "a"}}
-			nd.Body = g.body(-1+0, nd.Params) // rank -1: may call every function unguarded
-			// rank -1 makes the counter a constant; use the parameter instead where possible
-			p.Tail = append(p.Tail, c08Step{Kind: "def", Def: nd, Tag: "newcaller"})
-			evalStep(c08Call(nm, c08Const(int64(r.Intn(3))), c08Const(int64(r.Intn(9)))))
+			redefine(i, "redef")
+			redefs[g.funcs[i].Name]++
+			p.Events = append(p.Events, fmt.Sprintf("redef%d", redefs[g.funcs[i].Name]))
+		case 2:
+			newCaller(q, "")
 			p.Events = append(p.Events, "newcaller")
+		case 3:
+			// fmakunbound: every caller fails; callers compiled in between; then defined again
+			i := r.Intn(len(g.funcs))
+			p.Tail = append(p.Tail, c08Step{Kind: "undef", Name: g.funcs[i].Name})
+			againAll()
+			ev := "undef"
+			if r.Chance(50) {
+				newCaller(q, "u")
+				ev += "+caller"
+			}
+			if r.Chance(80) {
+				redefine(i, "redef-after-undef")
+				ev += "+redef"
+			}
+			p.Events = append(p.Events, ev)
 		}
 		againAll()
 	}
@@ -597,7 +916,8 @@ type c08Result struct {
 	ID      int      `json:"id"`
 	Outs    []string `json:"outs"`
 	Msgs    []string `json:"msgs,omitempty"`
-	Skipped bool     `json:"-"` // not run: too many workers died before (see c08MaxCrashes)
+	Skipped bool     `json:"-"`  // not run: too many workers died before (see c08MaxCrashes)
+	Us      int64    `json:"us"` // time spent in the worker (evidence only)
 }
 
 const c08MaxCrashes = 24
@@ -619,6 +939,9 @@ func c08Show(v slip.Object, suffix string) string {
 		s := strings.ToLower(string(tv))
 		if s == "t" {
 			return "t"
+		}
+		if strings.HasPrefix(s, ":") {
+			return "k:" + s[1:]
 		}
 		return "y:" + strings.TrimSuffix(s, suffix)
 	}
@@ -709,7 +1032,7 @@ func c08RunVariant(job *c08Job) *c08Result {
 		for i := 0; i < n; i++ {
 			i := i
 			switch job.Kinds[i] {
-			case "def":
+			case "def", "undef":
 				protect(i, func() slip.Object { return evalList(readOne(job.Texts[i])) })
 			case "eval":
 				var code slip.Code
@@ -753,7 +1076,7 @@ func c08RunVariant(job *c08Job) *c08Result {
 		for i := 0; i < n; i++ {
 			i := i
 			switch job.Kinds[i] {
-			case "def":
+			case "def", "undef":
 				protect(i, func() slip.Object {
 					code := readOne(job.Texts[i])
 					code.Compile()
@@ -797,6 +1120,17 @@ func c08RunVariant(job *c08Job) *c08Result {
 				ii := i
 				j := job.Js[i]
 				protect(ii, func() slip.Object { return evalCode(kept[j]) })
+				i++
+				continue
+			}
+			if job.Kinds[i] == "undef" {
+				// fmakunbound is evaluated when its form is reached: a batch of its own
+				ii := i
+				protect(ii, func() slip.Object {
+					code := readOne(job.Texts[ii])
+					code.Compile()
+					return evalCode(code)
+				})
 				i++
 				continue
 			}
@@ -847,6 +1181,13 @@ func c08Worker(c *lib.Ctx) {
 	// evaluation budget (it does not pass through Function.Eval) must die quickly, not after
 	// growing the default 1 GB stack
 	debug.SetMaxStack(96 << 20)
+	if pf := os.Getenv("VERIF_C08_PROF"); pf != "" {
+		// debugging aid: CPU profile of one worker
+		if f, err := os.Create(fmt.Sprintf("%s.%d", pf, os.Getpid())); err == nil {
+			_ = pprof.StartCPUProfile(f)
+			defer pprof.StopCPUProfile()
+		}
+	}
 	in := bufio.NewReaderSize(os.Stdin, 1<<20)
 	out := bufio.NewWriter(os.Stdout)
 	for {
@@ -857,7 +1198,9 @@ func c08Worker(c *lib.Ctx) {
 				fmt.Fprintf(os.Stderr, "C08 worker: bad job: %v\n", e)
 				os.Exit(2)
 			}
+			t0 := time.Now()
 			res := c08RunVariant(&job)
+			res.Us = time.Since(t0).Microseconds()
 			b, _ := json.Marshal(res)
 			_, _ = out.Write(b)
 			_ = out.WriteByte('\n')
@@ -867,6 +1210,7 @@ func c08Worker(c *lib.Ctx) {
 			break
 		}
 	}
+	pprof.StopCPUProfile()
 	os.Exit(0)
 }
 
@@ -932,7 +1276,7 @@ func c08RunJobs(jobs []*c08Job, nw int) []*c08Result {
 					results[k] = &c08Result{ID: jobs[k].ID, Skipped: true}
 					continue
 				}
-				if served >= 4000 {
+				if served >= 120 {
 					// fresh process now and then: the function tables only grow
 					p.close()
 					p = c08Spawn()
@@ -1026,7 +1370,7 @@ func c08MakeJob(id int, mode string, steps []c08Step, suffix string) *c08Job {
 		if s.Kind == "again" {
 			job.Texts = append(job.Texts, "")
 		} else {
-			job.Texts = append(job.Texts, s.text(mangle))
+			job.Texts = append(job.Texts, s.text(mangle, true))
 		}
 	}
 	return job
@@ -1051,13 +1395,14 @@ func c08ParseReply(reply string) ([]string, bool) {
 // after the caller — or is the caller itself — at a compile position or at a lazy position).
 func c08Construct(steps []c08Step, at int) string {
 	defined := map[string]int{}
-	redefs, late := 0, false
+	ever := map[string]bool{}
+	redefs, undefs, late := 0, 0, false
 	fwd := "none"
-	note := func(caller string, body *c08Expr) {
+	note := func(d *c08Def) {
 		var sites [][2]string
-		body.sites(true, &sites)
+		d.sites(&sites)
 		for _, s := range sites {
-			if _, has := defined[s[0]]; !has || s[0] == caller {
+			if _, has := defined[s[0]]; !has || s[0] == d.Name {
 				if s[1] == "compiled" {
 					fwd = "compiled"
 				} else if fwd == "none" {
@@ -1066,17 +1411,26 @@ func c08Construct(steps []c08Step, at int) string {
 			}
 		}
 	}
+	lambdaList := false
 	for i := 0; i <= at && i < len(steps); i++ {
 		s := steps[i]
-		if s.Kind == "def" {
-			if _, has := defined[s.Def.Name]; has {
+		switch s.Kind {
+		case "def":
+			if ever[s.Def.Name] {
 				redefs++
 			}
 			if s.Tag == "late" {
 				late = true
 			}
-			note(s.Def.Name, s.Def.Body)
+			if len(s.Def.Opt)+len(s.Def.Key)+len(s.Def.Aux) > 0 {
+				lambdaList = true
+			}
+			note(s.Def)
 			defined[s.Def.Name] = i
+			ever[s.Def.Name] = true
+		case "undef":
+			undefs++
+			delete(defined, s.Name)
 		}
 	}
 	rd := strconv.Itoa(redefs)
@@ -1096,11 +1450,17 @@ func c08Construct(steps []c08Step, at int) string {
 			}
 		}
 	}
-	lt := ""
-	if late {
-		lt = " late-def"
+	extra := ""
+	if undefs > 0 {
+		extra += " undefs=" + strconv.Itoa(min(undefs, 2))
 	}
-	return fmt.Sprintf("step=%s redefs=%s fwd=%s%s", kind, rd, fwd, lt)
+	if late {
+		extra += " late-def"
+	}
+	if lambdaList {
+		extra += " lambda-list"
+	}
+	return fmt.Sprintf("step=%s redefs=%s fwd=%s%s", kind, rd, fwd, extra)
 }
 
 func c08Aspect(impl, model string) string {
@@ -1187,6 +1547,96 @@ func c08SweepCells() []c08Cell {
 			c08Cell{"toplevel-late/" + p.name, []c08Step{ev(top), def(h(0), "late"), ag(0), def(h(1), "redef"), ag(0)}},
 		)
 	}
+	undef := func(name string) c08Step { return c08Step{Kind: "undef", Name: name} }
+	for _, p := range positions {
+		// fmakunbound: callers compiled before, between and after
+		mk := func(name string) *c08Def { return &c08Def{Name: name, Params: []string{"x"}, Body: p.body(callH())} }
+		gB, gM, gA := mk("gb"), mk("gm"), mk("ga")
+		callOf := func(n string) *c08Expr { return c08Call(n, c08Const(3)) }
+		cells = append(cells,
+			c08Cell{"undefine/" + p.name, []c08Step{def(h(0), ""), def(gB, ""), ev(callOf("gb")), undef("h"), ag(0), ev(callOf("gb"))}},
+			c08Cell{"undefine-unevaluated/" + p.name, []c08Step{def(h(0), ""), def(gB, ""), undef("h"), ev(callOf("gb"))}},
+			c08Cell{"undefine-redefine/" + p.name, []c08Step{def(h(0), ""), def(gB, ""), ev(callOf("gb")), undef("h"), ag(0),
+				def(gM, ""), ev(callOf("gm")), def(h(1), "redef-after-undef"), def(gA, ""), ag(0), ag(1), ev(callOf("ga")),
+				def(h(2), "redef"), ag(0), ag(1), ag(2)}},
+			c08Cell{"undefine-forward/" + p.name, []c08Step{def(gB, ""), def(h(0), ""), ev(callOf("gb")), undef("h"), ag(0), def(h(1), "redef-after-undef"), ag(0)}},
+			c08Cell{"undefine-twice/" + p.name, []c08Step{def(h(0), ""), def(gB, ""), ev(callOf("gb")), undef("h"), def(h(1), "redef-after-undef"), ag(0),
+				undef("h"), ag(0), def(gM, ""), def(h(2), "redef-after-undef"), ag(0), ev(callOf("gm"))}},
+		)
+		top := p.body(c08Call("h", c08Const(3), c08Const(2)))
+		if p.name == "if-then" {
+			top = c08If(c08Prim("<", c08Const(3), c08Const(100)), c08Call("h", c08Const(3), c08Const(2)), c08Const(0))
+		}
+		cells = append(cells,
+			c08Cell{"undefine-toplevel/" + p.name, []c08Step{def(h(0), ""), ev(top), undef("h"), ag(0), def(h(1), "redef-after-undef"), ag(0)}},
+		)
+		// the call inside an &aux init form (converted on every call); every function called several
+		// times with different arguments
+		gx := &c08Def{Name: "g", Params: []string{"x"}, Aux: []c08Aux{{Name: "u", Init: p.body(callH())}, {Name: "w", Init: c08Prim("*", c08Var("u"), c08Const(2))}},
+			Body: c08Prim("-", c08Var("w"), c08Var("x"))}
+		if gx.Aux[0].Init.Kind == "call" {
+			// keep a list form at the top that is not the call itself as well as the bare call
+			cells = append(cells, c08Cell{"aux-bare-call/" + p.name, []c08Step{def(h(0), ""), def(&c08Def{Name: "g", Params: []string{"x"}, Aux: []c08Aux{{Name: "u", Init: callH()}}, Body: c08Var("u")}, ""),
+				ev(c08Call("g", c08Const(3))), ev(c08Call("g", c08Const(5))), ag(0), ag(1)}})
+		}
+		cells = append(cells,
+			c08Cell{"aux/" + p.name, []c08Step{def(h(0), ""), def(gx, ""), ev(c08Call("g", c08Const(3))), ev(c08Call("g", c08Const(5))), ag(0), ag(1), ev(c08Call("g", c08Const(7)))}},
+			c08Cell{"aux-forward/" + p.name, []c08Step{def(gx, ""), ev(c08Call("g", c08Const(3))), def(h(0), "late"), ag(0), ev(c08Call("g", c08Const(5))), ag(0), def(h(1), "redef"), ag(0), ag(1)}},
+		)
+	}
+	// lambda lists: &optional / &key defaults and &aux on the first and on every later call
+	ll := &c08Def{Name: "ll", Params: []string{"x"}, Opt: []c08Default{{"o", 5}, {"p", 1}}, Key: []c08Default{{"k", 7}, {"m", 2}},
+		Aux:  []c08Aux{{Name: "u", Init: c08Prim("+", c08Var("x"), c08Var("o"))}, {Name: "w", Init: c08Prim("*", c08Var("u"), c08Var("k"))}},
+		Body: c08Prim("+", c08Prim("-", c08Var("w"), c08Var("p")), c08Prim("*", c08Var("m"), c08Const(100)))}
+	llCalls := []*c08Expr{
+		c08Call("ll", c08Const(1)),
+		c08Call("ll", c08Const(2), c08Const(3)),
+		c08Call("ll", c08Const(2), c08Const(3), c08Const(4)),
+		c08Call("ll", c08Const(2), c08Const(3), c08Const(4), c08Kw("k"), c08Const(10)),
+		c08Call("ll", c08Const(2), c08Const(3), c08Const(4), c08Kw("m"), c08Const(6), c08Kw("k"), c08Const(11)),
+		c08Call("ll", c08Const(1)),
+	}
+	llSteps := []c08Step{def(ll, "")}
+	for _, e := range llCalls {
+		llSteps = append(llSteps, ev(e))
+	}
+	for j := range llCalls {
+		llSteps = append(llSteps, ag(j))
+	}
+	ll2 := *ll
+	ll2.Aux = []c08Aux{{Name: "u", Init: c08Prim("-", c08Var("x"), c08Var("o"))}, {Name: "w", Init: c08Prim("+", c08Var("u"), c08Var("k"))}}
+	llSteps = append(llSteps, def(&ll2, "redef"))
+	for j := range llCalls {
+		llSteps = append(llSteps, ag(j))
+	}
+	cells = append(cells, c08Cell{"lambda-list/optional-key-aux", llSteps})
+	// let spellings and cond: the same meaning in every spelling, evaluated repeatedly
+	for style := 0; style < c08LetStyles; style++ {
+		inner := c08Let("z", c08Prim("*", c08Var("y"), c08Const(2)), c08Prim("+", c08Var("z"), c08Var("x")))
+		inner.Style = style
+		outer := c08Let("y", c08Call("h", c08Var("x"), c08Const(2)), inner)
+		outer.Style = style
+		cnd := c08If(c08Prim("<", c08Var("x"), c08Const(4)), outer, c08Const(-1))
+		cnd.Style = 1
+		gs := &c08Def{Name: "g", Params: []string{"x"}, Body: cnd}
+		cells = append(cells, c08Cell{fmt.Sprintf("let-style-%d/cond", style), []c08Step{def(gs, ""), def(h(0), ""), ev(c08Call("g", c08Const(3))), ev(c08Call("g", c08Const(9))), ag(0), ag(1),
+			def(h(1), "redef"), ag(0), undef("h"), ag(0), ag(1)}})
+	}
+	// ((lambda (y) x) 0): a lambda form whose body is a bare variable of the enclosing function, at a
+	// compile position and at a lazy position
+	for _, p := range positions {
+		if p.name != "body" && p.name != "prim-arg" && p.name != "if-then" {
+			continue
+		}
+		lf := c08Let("y", c08Const(0), c08Var("uqx"))
+		lf.Style = c08LetLambda
+		bodyOf := p.body(lf)
+		if p.name == "if-then" {
+			bodyOf = c08If(c08Prim("<", c08Var("uqx"), c08Const(100)), lf, c08Const(0))
+		}
+		gl := &c08Def{Name: "g", Params: []string{"uqx"}, Body: bodyOf}
+		cells = append(cells, c08Cell{"lambda-form-bare-variable/" + p.name, []c08Step{def(gl, ""), ev(c08Call("g", c08Const(3))), ev(c08Call("g", c08Const(5))), ag(0)}})
+	}
 	// self and mutual recursion with arguments that matter
 	fact := &c08Def{Name: "fa", Params: []string{"n", "a"}, Body: c08If(c08Prim("<", c08Var("n"), c08Const(1)), c08Var("a"),
 		c08Call("fa", c08Prim("-", c08Var("n"), c08Const(1)), c08Prim("+", c08Var("a"), c08Var("n"))))}
@@ -1249,7 +1699,7 @@ func c08ReplayMap(v *c08Variant, res *c08Result, at int, expectedFrom string) ma
 		outs = res.Outs
 	}
 	return map[string]any{
-		"input":         map[string]any{"history": c08HistoryText(v.steps), "mode": v.mode, "steps": v.steps},
+		"input":         map[string]any{"history": c08ImplText(v.steps), "model_history": c08HistoryText(v.steps), "mode": v.mode, "steps": v.steps},
 		"failing_step":  at,
 		"observed":      outs,
 		"expected":      v.model,
@@ -1424,9 +1874,9 @@ func c08Replay(c *lib.Ctx) {
 	v := &c08Variant{mode: rec.Input.Mode, steps: steps, model: model}
 	v.job = c08MakeJob(0, v.mode, steps, c08Suffix("r", 0))
 	res := c08RunJobs([]*c08Job{v.job}, 1)[0]
-	fmt.Printf("replay mode=%s\n  history       : %s\n  implementation: %v\n  model         : %v\n", v.mode, c08HistoryText(steps), res.Outs, model)
+	fmt.Printf("replay mode=%s\n  history       : %s\n  implementation: %v\n  model         : %v\n", v.mode, c08ImplText(steps), res.Outs, model)
 	if mm := c08Check(v, res); mm != nil {
-		fmt.Printf("  first difference at step %d (%s): observed %s %s, expected %s\n", mm.at, steps[mm.at].text(c08Ident), mm.impl, mm.msg, model[mm.at])
+		fmt.Printf("  first difference at step %d (%s): observed %s %s, expected %s\n", mm.at, steps[mm.at].text(c08Ident, true), mm.impl, mm.msg, model[mm.at])
 		c.Report("replay "+c08Construct(steps, mm.at), false, c08ReplayMap(v, res, mm.at, "model:comp.run"))
 	}
 }
@@ -1465,7 +1915,7 @@ func runC08(c *lib.Ctx) {
 	nSweep := len(variants)
 
 	// --- composite programs
-	nProg := c.Scale(2000, 12000)
+	nProg := c.Scale(1500, 9000)
 	g := &c08Gen{rng: c.Rng}
 	type progInfo struct {
 		p        *c08Program
@@ -1533,7 +1983,9 @@ func runC08(c *lib.Ctx) {
 	}
 
 	// --- model
+	tModel := time.Now()
 	replies := c.Model(append(append([]string{}, modelLines...), directLines...))
+	c.Ev.Coverage["model_wall_s"] = time.Since(tModel).Seconds()
 	for k, ref := range refs {
 		outs, ok := c08ParseReply(replies[k])
 		if !ok || len(outs) != len(variants[ref.first].steps) {
@@ -1573,7 +2025,9 @@ func runC08(c *lib.Ctx) {
 		v.job = c08MakeJob(i, v.mode, v.steps, c08Suffix("v", i))
 		jobs[i] = v.job
 	}
+	tImpl := time.Now()
 	results := c08RunJobs(jobs, c08Workers())
+	c.Ev.Coverage["impl_wall_s"] = time.Since(tImpl).Seconds()
 
 	// --- compare
 	agree := 0
@@ -1634,7 +2088,7 @@ func runC08(c *lib.Ctx) {
 			rm := c08ReplayMap(v, res, mm.at, expectedFrom)
 			rm["observed_at_step"] = mm.impl + " " + mm.msg
 			rm["expected_at_step"] = v.model[mm.at]
-			rm["step_text"] = v.steps[mm.at].text(c08Ident)
+			rm["step_text"] = v.steps[mm.at].text(c08Ident, true)
 			if v.sweep != "" {
 				c.Report(fmt.Sprintf("cell=%s pair=%s|%s aspect=%s", v.sweep, v.mode, other, aspect), true, rm)
 			} else {
@@ -1650,7 +2104,7 @@ func runC08(c *lib.Ctx) {
 						}
 						rm["observed_at_step"] = smm.impl + " " + smm.msg
 						rm["expected_at_step"] = sv.model[smm.at]
-						rm["step_text"] = sv.steps[smm.at].text(c08Ident)
+						rm["step_text"] = sv.steps[smm.at].text(c08Ident, true)
 						rm["shrink_attempts"] = sh.attempts
 					}
 				}
@@ -1658,6 +2112,21 @@ func runC08(c *lib.Ctx) {
 				c.Report(sig, false, rm)
 			}
 		}
+	}
+	// where the time goes (evidence only)
+	var totalUs, maxUs int64
+	slowest := -1
+	for i, r := range results {
+		if r != nil {
+			totalUs += r.Us
+			if r.Us > maxUs {
+				maxUs, slowest = r.Us, i
+			}
+		}
+	}
+	c.Ev.Coverage["impl_cpu_s"] = float64(totalUs) / 1e6
+	if slowest >= 0 {
+		c.Ev.Coverage["slowest_variant"] = map[string]any{"ms": maxUs / 1000, "mode": variants[slowest].mode, "history": c08ImplText(variants[slowest].steps)}
 	}
 	// samples
 	for k := 0; k < len(refs) && k < len(refs); k += len(refs)/10 + 1 {
